@@ -417,13 +417,19 @@ fn eval(c: &Case) -> Outcome {
         }
         Ok(actual) => {
             let (dtname, _, _) = DATATYPES[c.dt];
+            // (one violation per key and case: the replay data holds the whole module)
+            let mut keys_seen = std::collections::HashSet::new();
             for k in b.subjects.iter() {
                 let exp = b.expected.contains(k);
                 let act = actual.contains(k);
                 if exp != act {
                     let kind = if act { "false-report" } else { "missed-report" };
+                    let key = format!("C12/{kind}/{}/{}", k.0, c.conv.class());
+                    if !keys_seen.insert(key.clone()) {
+                        continue;
+                    }
                     o.viol.push((
-                        format!("C12/{kind}/{}/{}", k.0, c.conv.class()),
+                        key,
                         format!(
                             "{} {} (line {}) with {dtname} and {}: LimitCheckError {} but the declared limits are {} the closed-form range",
                             k.0,
@@ -439,6 +445,9 @@ fn eval(c: &Case) -> Outcome {
             }
             for k in actual.iter() {
                 if !b.subjects.contains(k) {
+                    if !keys_seen.insert(format!("C12/unexpected-subject/{}", k.0)) {
+                        continue;
+                    }
                     o.viol.push((
                         format!("C12/unexpected-subject/{}", k.0),
                         format!("LimitCheckError for {k:?} which is not an element under test"),
